@@ -288,4 +288,51 @@ theorem rep_run (gen : List Group) : ∀ (ops : List Op) (l : List Group) (c : C
     · simp [runOps, h1, h2]
     · rw [hh, specStep_head l c op r.ne]
 
+/-! ### further read paths -/
+
+theorem firstBelowWalk_eq_find (d : Store) (x : Nat) : ∀ (fuel : Nat) (g : Group),
+    firstBelowWalk d x fuel g = (iterWalk d fuel g).find? (fun g => decide (g.create ≤ x)) := by
+  intro fuel
+  induction fuel with
+  | zero => intro g; simp [firstBelowWalk, iterWalk]
+  | succ f ih =>
+    intro g
+    unfold firstBelowWalk iterWalk
+    by_cases hc : g.create ≤ x
+    · cases hp : getGroupById d g.pre <;> simp [hc]
+    · cases hp : getGroupById d g.pre with
+      | none => simp [hc]
+      | some p => simp [hc, ih p]
+
+/-- `getFirstGroupBelowHeight(x)` = the newest listed group created at or below `x`. -/
+theorem firstBelow_rep {l : List Group} {c : Chain} (r : Rep l c) (x : Nat) :
+    firstBelow c x = l.reverse.find? (fun g => decide (g.create ≤ x)) := by
+  unfold firstBelow
+  rw [firstBelowWalk_eq_find]
+  have := iterList_rep r
+  unfold iterList at this
+  rw [this]
+
+/-- `GetSyncGroupsById(id)` for the listed group at index `i`: the (at most five) groups after it. -/
+theorem syncById_rep {l : List Group} {c : Chain} (r : Rep l c) (i : Nat) (g : Group) (hg : l[i]? = some g)
+    (hb6 : l.length + 6 < lenBound) :
+    syncById c.disk g.id = ((l.drop (i + 1)).take 5).map some := by
+  have hm : g ∈ l := List.mem_of_getElem? hg
+  have hh : g.height = i := r.height i g hg
+  have hil : i < l.length := (List.getElem?_eq_some_iff.mp hg).1
+  have hb := r.bound
+  have hmod : (g.height + 1) % u64 = i + 1 := by
+    rw [hh]; unfold lenBound at hb; unfold u64; omega
+  unfold syncById
+  rw [r.byId hm]
+  show syncFrom c.disk ((g.height + 1) % u64) 5 = _
+  rw [hmod]
+  exact syncFrom_rep r 5 (i + 1) (by omega)
+
+theorem topHeight_rep {l : List Group} {c : Chain} (r : Rep l c) : topHeight c = l.length - 1 := by
+  unfold topHeight
+  have := r.pos
+  rw [r.count]
+  split <;> omega
+
 end Rangers.Model.GroupChain
